@@ -1612,3 +1612,46 @@ Proof.
     + rewrite dnode_put_node by (unfold put_node; simpl; rewrite upd_length; auto).
       replace (Nat.eqb x p) with false by (symmetry; apply Nat.eqb_neq; auto). rewrite dnode_put_node by auto. rewrite Nat.eqb_refl. reflexivity.
 Qed.
+
+Definition kvk (s : kstate) (x : nat) : key * val := kv (sent s x).
+
+Lemma kforeach_loop_ok : forall T s C0 pre p n fuel stop calls acc nacc,
+  SGood s C0 -> HEADER :: C0 = pre ++ p :: T -> dnode s p = Ok n -> length T < fuel ->
+  exists st' pos',
+    k_foreach_loop kv_fixed fuel (put_node s p (bumpk n)) (Some p) stop calls acc nacc =
+      Ok (st', pos', rev acc ++ map (kvk s) (takeL stop calls T), nacc) /\
+    k_iter_free kv_fixed st' pos' = Ok (s, []).
+Proof.
+  induction T; intros s C0 pre p n fuel stop calls acc nacc G E N Hf.
+  - destruct fuel; [simpl in Hf; lia|]. cbn [k_foreach_loop]. rewrite (iter_next_k s C0 pre p [] n G E N). cbn [bind].
+    exists s, None. rewrite !app_nil_r. split; auto.
+  - destruct fuel; [simpl in Hf; lia|]. cbn [k_foreach_loop]. rewrite (iter_next_k s C0 pre p (a :: T) n G E N).
+    assert (AC : In a C0).
+    { destruct pre as [|q pre']; simpl in E; inversion E; subst. left; auto. apply in_or_app. right. right. left. auto. }
+    destruct (sg_node _ _ G a AC) as [m [k [M1 [M2 [M3 _]]]]]. rewrite M1. cbn [bind takeL].
+    assert (KV : kvk s a = (nkey s a, sn_val m)). { unfold kvk. rewrite (sent_node _ _ _ _ M1 M2). rewrite (nkey_some _ _ _ _ M1 M2). reflexivity. }
+    destruct (negb (Nat.eqb stop 0) && Nat.leb stop (S calls)) eqn:ST.
+    + exists (put_node s a (bumpk m)), (Some a). split.
+      * rewrite app_nil_r. simpl. rewrite KV. reflexivity.
+      * unfold k_iter_free. simpl kx_iter_free. cbv iota. rewrite (node_deref_bumped_k _ a m); auto.
+        rewrite put_node_twice, put_node_same by auto. reflexivity.
+        rewrite dnode_put_node by (eapply dnode_lt; eauto). rewrite Nat.eqb_refl. reflexivity.
+    + destruct (IHT s C0 (pre ++ [p]) a m fuel stop (S calls) ((nkey s a, sn_val m) :: acc) (nacc ++ [])) as [st' [pos' [F1 F2]]]; auto.
+      rewrite <- app_assoc. exact E. simpl in Hf. lia.
+      exists st', pos'. split; auto. rewrite F1. rewrite app_nil_r. simpl. rewrite KV. rewrite <- app_assoc. reflexivity.
+Qed.
+
+Lemma kstep_foreach : forall rc s C0 stop, SGood s C0 -> kstep_ok rc s C0 (Foreach stop) [].
+Proof.
+  intros rc s C0 stop G. destruct rc as [[e1 e2] e3]. unfold kstep_ok, k_step, a_step. simpl. rewrite (sg_alive _ _ G). simpl.
+  unfold k_foreach, k_iter_create. destruct (sg_hdr _ _ G) as [h [H1 [H2 H3]]]. unfold HEADER in *. rewrite H1. cbn [bind].
+  fold (bumpk h).
+  destruct (kforeach_loop_ok C0 s C0 [] 0 h (S (S (length (k_nodes s)))) stop 0 [] [] G eq_refl H1) as [st' [pos' [F1 F2]]].
+  { generalize (sgood_len _ _ G). lia. }
+  replace (length (k_nodes s)) with (length (k_nodes s)) in F1 by auto.
+  rewrite F1. cbn [bind]. rewrite F2. cbn [bind].
+  eexists s, C0, _, (OEntries (take_stop stop (live_kv (kabs s C0)))), _. split; [reflexivity|]. split; [reflexivity|]. split; [|left; auto].
+  simpl. f_equal. rewrite takeL_spec by (destruct stop; [left; auto | right; lia]).
+  unfold live_kv. rewrite live_kabs. simpl. unfold kvk. rewrite <- map_map.
+  destruct stop; simpl; auto. destruct C0; simpl; auto. rewrite !firstn_map. reflexivity.
+Qed.
